@@ -249,7 +249,9 @@ fn build_witness_set(c: &Case) -> Built {
     }
     if let Some(mut n) = redeemers_node(&c.redeemers) {
         for op in &c.redeemer_ops {
-            mutate::apply_form(&mut n, op, &["widen-head", "def-indef", "widen-len", "chunk-string"]);
+            // (no "def-indef": it could hit the [index, fields] wrapper of a Constr 102, which the
+            // library only accepts in definite form - a decoder matter outside this property)
+            mutate::apply_form(&mut n, op, &["widen-head", "widen-len", "chunk-string"]);
         }
         entries.push((cborx::uint(5), n));
     }
@@ -327,8 +329,9 @@ fn check_build_for(c: &Case, obs: &mut Obs) -> Result<(), Fail> {
         Err(e) => {
             // outside C08: the property is about witness sets the library decodes
             obs.discard();
-            let _ = e;
-            DISCARD_UNDECODABLE.fetch_add(1, AO::Relaxed);
+            if DISCARD_UNDECODABLE.fetch_add(1, AO::Relaxed) < 3 {
+                eprintln!("[C08] note: generated witness set {} not decodable: {e}", hexs(&b.bytes));
+            }
             return Ok(());
         }
     };
